@@ -8,7 +8,7 @@ from vlib.q import Q
 from vlib.filt import diffeq_ref
 from vlib.sources import Src
 
-from audiolazy import ZFilter, z, Stream, MemoryLeakWarning
+from audiolazy import ZFilter, z, Stream, ControlStream, MemoryLeakWarning
 
 ID = "C06"
 RULE = ("cases = causal filter shapes (orders <= 3) in which a generated non-empty subset of "
@@ -43,7 +43,10 @@ def coef(lenmin, lenmax, nz=False):
   # (not Q: a float literal in the gain path would be absorbed exactly by Q)
   rep = st.tuples(vals, st.integers(lenmin, lenmax)).map(lambda t: ("finrep", t))
   pln = st.lists(vals, min_size=lenmin, max_size=lenmax).map(lambda l: ("plainseq", l))
-  return st.one_of(k, seq, seq, per, cst, rep, pln)
+  # a ControlStream whose value the consumer changes between outputs: its n-th value is the value
+  # it holds when output n is computed (given directly as a coefficient, not wrapped)
+  ctl = st.lists(vals, min_size=lenmax, max_size=lenmax).map(lambda l: ("control", l))
+  return st.one_of(k, seq, seq, per, cst, rep, pln, ctl)
 
 
 def live(b):
@@ -64,11 +67,16 @@ class Built(object):
   def __init__(self):
     self.srcs = []     # (Src, kind, length or None)
     self.lens = []     # lengths of all finite coefficient streams (counted or not)
+    self.controls = [] # (ControlStream, the value it must hold while output j is computed)
 
   def real(self, c):
     kind, v = c
     if kind == "const":
       return v
+    if kind == "control":
+      cs = ControlStream(v[0])
+      self.controls.append((cs, v))
+      return cs
     if kind == "finrep":
       import itertools
       self.lens.append(v[1])
@@ -105,7 +113,7 @@ def seq_of(c, n):
     return F(v)
   if kind == "finrep":
     return [F(v[0])] * min(v[1], n)
-  if kind in ("seq", "plainseq"):
+  if kind in ("seq", "plainseq", "control"):
     return [F(t) for t in v[:n]]
   if kind == "periodic":
     return [F(v[i % len(v)]) for i in range(n)]
@@ -134,10 +142,10 @@ def model_polys(b, a, n):
   return ({k: seq_of(c, n) for k, c in enumerate(b)}, {k: seq_of(c, n) for k, c in enumerate(a)})
 
 
-def run_and_check(filt, N, D, x, bt, what, leak_check=True):
+def run_and_check(filt, N, D, x, bt, what, leak_check=True, mem=None):
   with warnings.catch_warnings(record=True) as w:
     warnings.simplefilter("always")
-    out = filt(list(x), zero=ZERO)
+    out = filt(list(x), zero=ZERO) if mem is None else filt(list(x), zero=ZERO, memory=list(mem))
     # "sampled once per output sample": nothing is sampled by the call itself, and
     # after j outputs every coefficient source has delivered exactly j values
     for s, kind, l in bt.srcs:
@@ -147,6 +155,8 @@ def run_and_check(filt, N, D, x, bt, what, leak_check=True):
     got = []
     it = iter(out)
     while True:
+      for cs, vals in bt.controls:
+        cs.value = vals[min(len(got), len(vals) - 1)]
       try:
         got.append(next(it))
       except StopIteration:
@@ -166,7 +176,7 @@ def run_and_check(filt, N, D, x, bt, what, leak_check=True):
       raise Violation("%s: output resumed after it had ended" % what)
     del out, it, filt
     gc.collect()
-  exp = diffeq_ref(N, D, x, 0, None)
+  exp = diffeq_ref(N, D, x, 0, mem)
   if len(got) != len(exp):
     raise Violation("%s: %d outputs, expected %d (input %d samples, coefficient streams %r)"
                     % (what, len(got), len(exp), len(x), [(k, l) for _, k, l in bt.srcs]))
@@ -193,7 +203,10 @@ def run_and_check(filt, N, D, x, bt, what, leak_check=True):
 def strat_single(tier):
   return st.integers(3, 8).flatmap(lambda n: st.fixed_dictionaries(dict(
     shape=shape(max(1, n - 3), n + 2), x=st.lists(qv, min_size=n, max_size=n),
-    route=st.sampled_from(["expr", "dict", "list"]))))
+    route=st.sampled_from(["expr", "dict", "list"]),
+    # a numerator with no term at all (the zero-input response of the feedback part), and a given memory
+    null_num=st.sampled_from([False] * 5 + [True]),
+    mem=st.one_of(st.none(), st.none(), st.lists(qv, min_size=3, max_size=3)))))
 
 
 def labels_for(b, a, x, got, bt):
@@ -217,6 +230,16 @@ def run_single(c):
   x = c["x"]
   if all(cc[0] == "const" for cc in b + a):
     b = [("seq", [Q(1)] * (len(x) + 1))] + list(b[1:])   # keep the case time-varying
+  FEED = ("seq", [Q(1, 2), Q(-1), Q(2), Q(-1, 3)] * 3)
+  if c.get("null_num"):
+    b = []
+    if all(cc[0] == "const" for cc in a[1:]):
+      a = list(a) + [FEED]
+  mem = c.get("mem")
+  if mem is not None:
+    if len(a) == 1:
+      a = list(a) + [FEED]
+    mem = mem[:len(a) - 1]
   bt = Built()
   filt = build_filter(b, a, c["route"], bt)
   if len(x) % 2:
@@ -224,10 +247,12 @@ def run_single(c):
     hash(filt)
     {filt: "kept"}
   N, D = model_polys(b, a, len(x) + 2)
-  got = run_and_check(filt, N, D, x, bt, "filter b=%r a=%r route=%s" % (b, a, c["route"]))
+  got = run_and_check(filt, N, D, x, bt, "filter b=%r a=%r route=%s memory=%r" % (b, a, c["route"], mem), mem=mem)
   nstreams = sum(1 for cc in b + a if cc[0] != "const")
   nt = (any(cc[0] != "const" for cc in a) or nstreams >= 2) and len(got) >= 3
-  return {"nontrivial": nt, "labels": labels_for(b, a, x, got, bt) + ["route:" + c["route"]]}
+  return {"nontrivial": nt, "labels": labels_for(b, a, x, got, bt) + ["route:" + c["route"]] + (
+    ["no numerator term"] if not b else []) + (["memory given"] if mem is not None else []) + (
+    ["control stream"] if bt.controls else [])}
 
 
 # ------------------------------------------------------------------ constant stream == constant
@@ -308,12 +333,13 @@ def strat_algebra(tier):
   fir = lambda lo, hi: st.lists(coef(lo, hi), min_size=1, max_size=3).map(live)
   return st.integers(3, 7).flatmap(lambda n: st.fixed_dictionaries(dict(
     op=st.sampled_from(["add", "sub", "mul", "scale", "delay", "mul_iir", "add_iir", "neg", "shared_square",
-                        "hub_reuse", "hub_reuse", "div_delayed_gain", "add_fir_to_iir", "add_number"]),
+                        "hub_reuse", "hub_reuse", "div_delayed_gain", "add_fir_to_iir", "add_number", "copy"]),
     hub=st.fixed_dictionaries(dict(c0=st.integers(1, 3), c1=st.integers(-3, 3).filter(lambda v: v != 0),
                                    c2=st.integers(-2, 2), d=st.integers(3, 4), extra=st.integers(0, 1),
                                    feedback=st.booleans())),
     f=shape(n - 2, n + 2), g=shape(n, n + 2), fb=fir(n - 2, n + 2), gb=fir(n, n + 2),
     c=st.sampled_from([2, -1, 3, 0.5]), k=st.integers(1, 3), route=st.sampled_from(["expr", "dict", "list"]),
+    null_left=st.sampled_from([False, False, True]),
     x=st.lists(qv, min_size=n, max_size=n))))
 
 
@@ -387,11 +413,15 @@ def run_algebra(c):
       else:
         real, N, D = f * g, P_mul(Nf, Ng), {0: F(1)}
     used = (fb, one)
-  elif op in ("scale", "delay", "neg"):
+  elif op in ("scale", "delay", "neg", "copy"):
     fb, fa = c["f"]
     f = build_filter(fb, fa, c.get("route", "expr"), bt)
     Nf, Df = model_polys(fb, fa, n)
-    if op == "scale":
+    if op == "copy":
+      # a copy of a filter follows the same coefficient streams (the original is kept alive, unused)
+      bt.keep = f
+      real, N, D = f.copy(), Nf, Df
+    elif op == "scale":
       real, N, D = c["c"] * f, {k: s_mul(v, F(c["c"])) for k, v in Nf.items()}, Df
     elif op == "neg":
       real, N, D = -f, {k: s_mul(v, F(-1)) for k, v in Nf.items()}, Df
@@ -429,6 +459,12 @@ def run_algebra(c):
   else:  # add_iir: different denominators -> (Nf*Dg + Ng*Df) / (Df*Dg)
     fb, fa = c["f"]
     gb, ga = c["g"]
+    if c.get("null_left"):
+      # a filter whose numerator has no term, with Streams in its denominator, on the left of a sum:
+      # (0/Df) + Ng/Dg = (Ng*Df)/(Df*Dg) - Df's streams still bound the length and are read once per sample
+      fb = []
+      if all(cc[0] == "const" for cc in fa):
+        fa = list(fa) + [("seq", [Q(1, 2), Q(-1), Q(2)] * 4)]
     if all(cc[0] == "const" for cc in fa + ga) and fa == ga:
       ga = [("const", 2)] + list(ga[1:]) if ga[0] != ("const", 2) else [("const", 3)] + list(ga[1:])
     f = build_filter(fb, fa, c.get("route", "expr"), bt)
@@ -447,17 +483,20 @@ def run_algebra(c):
                       leak_check=False)
   nstreams = len(bt.srcs)
   return {"nontrivial": (nstreams >= 2 or op == "hub_reuse") and len(got) >= 3, "labels": ["op:" + op] + (
+    ["null left operand"] if op == "add_iir" and c.get("null_left") else []) + (
+    ["control stream"] if bt.controls else []) + (
     ["coefficient stream ends first"] if any(l is not None and l < len(x) for _, _, l in bt.srcs) else [])}
 
 
 CLAUSES = [
   Clause("single", strat_single, run_single, quick=1500, thorough=30000,
          floors={"a0 stream": .2, "stream in feedback": .2, "coefficient stream ends first": .05,
-                 "periodic": .1},
+                 "periodic": .1, "no numerator term": .05, "memory given": .1, "control stream": .1},
          doc="y[n] uses every coefficient stream's n-th value; ends with the shortest; one read per output"),
   Clause("constant_stream", strat_const, run_const, quick=500, thorough=8000,
          doc="a constant Stream coefficient behaves like the constant"),
   Clause("algebra", strat_algebra, run_algebra, quick=1200, thorough=25000,
-         floors={"op:add_iir": .04, "op:shared_square": .04, "op:mul": .04, "op:hub_reuse": .08},
+         floors={"op:add_iir": .015, "op:shared_square": .015, "op:mul": .015, "op:hub_reuse": .04,
+                 "op:copy": .015, "null left operand": .004, "control stream": .1},
          doc="sum / difference / product / scaling / delay act on coefficient sequences element by element; tee accounting"),
 ]
